@@ -123,6 +123,18 @@ class SChars:
                 return i
         return -1
 
+    def rpartition(self, sep):
+        i = self.rfind(sep)          # forks on symbolic characters
+        if i < 0:
+            return SChars([]), SChars([]), self
+        return self[:i], SChars.of(sep), self[i + 1:]
+
+    def partition(self, sep):
+        i = self.find(sep)
+        if i < 0:
+            return self, SChars([]), SChars([])
+        return self[:i], SChars.of(sep), self[i + 1:]
+
     def startswith(self, p):
         return self[:len(p)] == p if len(p) <= len(self.c) else False
 
